@@ -73,7 +73,7 @@ Print Assumptions C12_kaplan_markov_def.
 
 Theorem C12_kaplan_kolmogorov_def : forall n t g xs,
   kk_ok n t g (kinit) xs ->
-  kk_terms_from n (t + g) (0, 1%Z) (Fin 1) (map (fun x => x + g) xs) = map Fin (kTs n t g kinit xs).
+  kk_terms_from n (t + g) (0, 1%Z) false (Fin 1) (map (fun x => x + g) xs) = map Fin (kTs n t g kinit xs).
 Proof. exact kaplan_kolmogorov_def. Qed.
 Print Assumptions C12_kaplan_kolmogorov_def.
 
